@@ -272,7 +272,7 @@ def run(model: Model, rep: Report, tier: str) -> None:
         "round trip beyond these necessary conditions."
     )
     rep.trusted_base = ["Python operator precedence as implemented by ast.parse", "eval() of the printed text against LOCALS"]
-    rep.floors = {"R12.1": 6, "R12.2": 10, "R12.3": 20, "R12.4": 3, "R12.5": 1, "R12.6": 4, "R12.7": 8, "R12.10": 1, "R12.11": 1}
+    rep.floors = {"R12.1": 7, "R12.2": 10, "R12.3": 20, "R12.4": 3, "R12.5": 1, "R12.6": 4, "R12.7": 8, "R12.10": 1, "R12.11": 1}
     # ------------------------------------------------------------------ R12.5 hoisting of subscripts
     from ..refcmp import load_reference, run_table
     from ..setalg import SetAlg
